@@ -413,6 +413,131 @@ def run_zorro_component(seed, tier, name):
     return res
 
 
+def run_hostile_component(seed, tier, name):
+    """K7 + K11: shape grid, hostile batches, container codec, prefixes, invalid elements, fuzz, allocation"""
+    t0 = time.time()
+    res = CompResult()
+    outdir = os.path.join(WORK, name)
+    shutil.rmtree(outdir, ignore_errors=True)
+    os.makedirs(outdir, exist_ok=True)
+    res.outdir = outdir
+    curves = ["secq256k1", "zorro", "curve25519"]
+    procs = [subprocess.Popen([BIN, "hostile", "--seed", str(seed), "--tier", tier, "--out", outdir, "--curves", c],
+                              stdout=subprocess.PIPE, stderr=subprocess.STDOUT, text=True, env=ENV) for c in curves]
+    outs = [p.communicate(timeout=3000)[0] for p in procs]
+    res.crashes = []
+    if any(p.returncode != 0 for p in procs):
+        for c, p_, o in zip(curves, procs, outs):
+            if p_.returncode == 0:
+                continue
+            mf = os.path.join(outdir, "current_%s.txt" % c)
+            what, hx = "unknown", ""
+            if os.path.exists(mf):
+                t = open(mf).read().split()
+                what, hx = (t + ["", ""])[0], (t + ["", ""])[1]
+            why = [l for l in o.splitlines() if "UNCAUGHT PANIC" in l or "memory allocation" in l or "overflow" in l][:2]
+            res.crashes.append({"curve": c, "what": what, "input_hex": hx, "exit": p_.returncode, "message": " ".join(why)[:300]})
+            res.disagreements.append(("crash:%s:%s" % (c, what), 0, "harness process died (exit %s, %s) while the implementation handled input [%s] %s" % (
+                p_.returncode, " ".join(why)[:200], what, hx[:120])))
+        return res
+    shard_res = run_coq_shards(outdir)
+    blocks = []
+    for f, rc, dt in shard_res:
+        b, txt = parse_model_out(f[:-2] + ".out")
+        if rc != 0 or "Error" in txt:
+            res.model_errors.append((f, txt[-400:]))
+        blocks += b
+    grid_m, batch_m, dec_m = {}, {}, {}
+    # grid/batch blocks are per curve file in emission order; dec blocks carry their index; recover the curve from the file
+    per_file = {}
+    for f, rc, dt in shard_res:
+        b, _ = parse_model_out(f[:-2] + ".out")
+        per_file[int(re.search(r"cases_(\d+)\.v", f).group(1))] = b
+    lines = {c: open(os.path.join(outdir, "hostile_%s.txt" % c)).read().splitlines() for c in curves}
+    H = {"grid": [], "batch": [], "codec": [], "roundtrip": [], "prefix": [], "bad": [], "fuzz": [], "alloc": [], "dec": [], "widths": {}}
+    for ci, c in enumerate(curves):
+        gm = [x for b in per_file.get(ci, []) for row in b if row and row[0] == 30 for x in row[1:]]
+        bm = [x for b in per_file.get(ci, []) for row in b if row and row[0] == 31 for x in row[1:]]
+        dm = {}
+        for k, b in per_file.items():
+            if 100 * (ci + 1) <= k < 100 * (ci + 2):
+                for row in [r for blk in b for r in blk]:
+                    if row and row[0] == 33:
+                        dm[row[1]] = row[2:]
+        gi = bi = 0
+        last = None
+        for l in lines[c]:
+            t = l.split()
+            if t[0] == "GRID":
+                last = dict(curve=c, cap=int(t[2]), n1=int(t[3]), n=int(t[4]), m=int(t[5]), lL=int(t[6]), lR=int(t[7]), idflag=int(t[8]), code=int(t[9]))
+                H["grid"].append(last)
+            elif t[0] == "GRIDM":
+                want = int(t[2])
+                got = gm[gi] if gi < len(gm) else None
+                gi += 1
+                if got != want:
+                    res.disagreements.append(("grid:%s:cap=%d,n1=%d,n=%d,|L|=%d,|R|=%d" % (c, last["cap"], last["n1"], last["n"], last["lL"], last["lR"]), 30,
+                                              "verify: implementation %s, shape model %s" % ("panics" if want == 9 else "returns", {9: "panics", 0: "returns", None: "gave no output"}[got])))
+            elif t[0] == "BATCH":
+                last = dict(curve=c, k=int(t[2]), code=int(t[3]))
+                H["batch"].append(last)
+            elif t[0] == "BATCHM":
+                want = int(t[2])
+                got = bm[bi] if bi < len(bm) else None
+                bi += 1
+                if got != want:
+                    res.disagreements.append(("batch:%s:#%d" % (c, bi - 1), 31, "batch_verify: implementation %s, shape model %s" % (
+                        "panics" if want == 9 else "returns", {9: "panics", 0: "returns", None: "gave no output"}[got])))
+            elif t[0] == "WIDTHS":
+                H["widths"][c] = (int(t[2]), int(t[3]))
+            elif t[0] == "CODEC":
+                d = dict(x.split("=") for x in t[2:]); d = {k: int(v) for k, v in d.items()}; d["curve"] = c
+                H["codec"].append(d)
+            elif t[0] == "ROUNDTRIP":
+                H["roundtrip"].append(dict(curve=c, rt=int(t[2]), same_verdict=int(t[3]), suffix=int(t[4])))
+            elif t[0] == "PREFIX":
+                d = dict(x.split("=") for x in t[2:]); d = {k: int(v) for k, v in d.items()}; d["curve"] = c
+                H["prefix"].append(d)
+            elif t[0] == "BAD":
+                H["bad"].append(dict(curve=c, pos=t[2], kind=t[3], code=int(t[4])))
+            elif t[0] == "FUZZ":
+                d = dict(x.split("=") for x in t[2:]); d["curve"] = c
+                H["fuzz"].append(d)
+            elif t[0] == "ALLOC":
+                d = dict(x.split("=") for x in t[2:]); d = {k: int(v) for k, v in d.items()}; d["curve"] = c
+                H["alloc"].append(d)
+            elif t[0] == "DEC":
+                idx = int(t[2]); impl = [int(x) for x in t[4:]]
+                m = dm.get(idx)
+                H["dec"].append(dict(curve=c, idx=idx, kind=t[3], impl=impl, model=m))
+                cid = "dec:%s:%d:%s" % (c, idx, t[3])
+                if m is None:
+                    res.disagreements.append((cid, 33, "model produced no output"))
+                elif impl[0] == 99:
+                    res.disagreements.append((cid, 33, "from_bytes panicked; the model's decoder is total"))
+                elif impl[0] != m[0]:
+                    res.disagreements.append((cid, 33, "from_bytes %s, model decoder %s" % ("accepts" if impl[0] else "rejects", "accepts" if m[0] else "rejects")))
+                elif impl[0] == 1:
+                    if impl[1:4] != m[1:4]:
+                        res.disagreements.append((cid, 33, "decoded (|L|,|R|,consumed): implementation %s model %s" % (impl[1:4], m[1:4])))
+                    if m[4] != 1:
+                        res.disagreements.append((cid, 33, "model: re-encoding the decoded proof does not reproduce the consumed bytes"))
+                    if m[5] != impl[3]:
+                        res.disagreements.append((cid, 33, "encoded_size formula %d, implementation length %d" % (m[5], impl[3])))
+        if gi != len(gm) or bi != len(bm):
+            res.disagreements.append(("grid:%s" % c, 30, "model evaluated %d/%d classes, harness recorded %d/%d" % (len(gm), len(bm), gi, bi)))
+    res.hostile = H
+    res.cases = len(H["grid"]) + len(H["batch"]) + len(H["dec"]) + len(H["bad"]) + sum(int(f["iters"]) for f in H["fuzz"]) + len(H["prefix"])
+    for f, e in res.model_errors:
+        res.disagreements.append(("model", 0, "model evaluation failed in %s: %s" % (os.path.basename(str(f)), str(e)[:300])))
+    res.summary = {"hostile_grid": {"curve": "all", "line": "grid %d verify calls, %d batches, %d decoder cases, %d invalid-element cases" % (len(H["grid"]), len(H["batch"]), len(H["dec"]), len(H["bad"]))}}
+    res.wall = time.time() - t0
+    return res
+
+
+CUSTOM["hostile"] = run_hostile_component
+
+
 # ---------------------------------------------------------------- evidence / verdict
 def write_evidence(pid, tier, seed, level, coverage, assumptions, wall, violations):
     os.makedirs(EVID, exist_ok=True)
